@@ -24,6 +24,10 @@ type GenConfig struct {
 	Pods       bool
 	ConfigMap  bool
 	Rich       bool // auth (basic/external/oauth), ssl-passthrough, tcp services, cors, whitelist...
+	// TCPConfigMap: entries of the --tcp-services-configmap ConfigMap (op `tcp~`) next to the ingresses: set in the
+	// first batch or later, entries added / changed / removed, and the crt / CA secrets an entry names appearing,
+	// disappearing, renewed or replaced by an unusable one in later batches (no extra draw when false)
+	TCPConfigMap bool
 }
 
 func DefaultGen() GenConfig {
@@ -49,6 +53,8 @@ type Gen struct {
 	shared int
 	cls map[string]string
 	ts  int
+	tcp []TCPEntry // current entries of the tcp-services ConfigMap
+	tcpSet bool    // the ConfigMap object exists
 }
 
 func NewGen(r *gen.Rng, c GenConfig) *Gen {
@@ -281,6 +287,20 @@ func (g *Gen) History() []string {
 	for i := 0; i < n0; i++ {
 		ops = append(ops, g.ingOp())
 	}
+	if g.C.TCPConfigMap {
+		for _, ns := range g.C.Namespaces {
+			if g.sec[ns+"/ca1"] == 0 && r.Chance(1, 2) {
+				g.sec[ns+"/ca1"], g.secKind[ns+"/ca1"] = 1, "ca"
+				ops = append(ops, fmt.Sprintf("sec+%s/ca1!ca!1!-", ns))
+			}
+		}
+		if r.Chance(2, 3) {
+			ops = append(ops, g.TCPOp())
+			if r.Chance(1, 2) {
+				ops = append(ops, g.TCPOp())
+			}
+		}
+	}
 	ops = append(ops, "sync")
 	nb := r.Range(1, g.C.MaxBatches)
 	for b := 0; b < nb; b++ {
@@ -332,6 +352,12 @@ func (g *Gen) ingOp() string {
 func (g *Gen) randomOp() string {
 	r := g.R
 	ns := gen.Pick(r, g.C.Namespaces)
+	if g.C.TCPConfigMap && r.Chance(1, 3) {
+		if len(g.tcp) > 0 && r.Chance(3, 5) {
+			return g.TCPSecretOp()
+		}
+		return g.TCPOp()
+	}
 	switch r.Intn(12) {
 	case 0, 1:
 		return g.epOp(ns, gen.Pick(r, g.C.Services))
@@ -457,3 +483,91 @@ func createTimeAnnotations(r *gen.Rng, s *IngressSpec) {
 
 // CreateTimeAnnotations is createTimeAnnotations for generators outside this package.
 func CreateTimeAnnotations(r *gen.Rng, s *IngressSpec) { createTimeAnnotations(r, s) }
+
+var tcpPublicPorts = []string{"5432", "5433", "5434"}
+
+func (g *Gen) randomTCPEntry(port string) TCPEntry {
+	r := g.R
+	ns := gen.Pick(r, g.C.Namespaces)
+	e := TCPEntry{Port: port, Svc: ns + "/" + gen.Pick(r, g.C.Services), SvcPort: gen.Pick(r, []string{"80", "http", "80", "81", "adm", "8080", "9999"})}
+	if r.Chance(1, 4) {
+		e.InProxy = gen.Pick(r, []string{"PROXY", "proxy", "x"})
+	}
+	if r.Chance(1, 4) {
+		e.OutProxy = gen.Pick(r, []string{"PROXY", "PROXY-V1", "PROXY-V2", "proxy-v1"})
+	}
+	sns := gen.Pick(r, g.C.Namespaces)
+	if r.Chance(2, 3) {
+		e.Crt = sns + "/" + gen.Pick(r, append(append([]string(nil), g.C.Secrets...), "missing"))
+	}
+	if r.Chance(1, 8) {
+		e.Check = gen.Pick(r, []string{"-", "5s", "bad"})
+	}
+	if r.Chance(1, 3) {
+		e.CA = sns + "/" + gen.Pick(r, []string{"ca1", "ca1", "missing", g.C.Secrets[0]})
+	}
+	return e
+}
+
+// TCPOp sets the tcp-services ConfigMap: one entry added, replaced or removed (the op carries the whole data)
+func (g *Gen) TCPOp() string {
+	r := g.R
+	port := gen.Pick(r, tcpPublicPorts)
+	idx := -1
+	for i, e := range g.tcp {
+		if e.Port == port {
+			idx = i
+		}
+	}
+	switch {
+	case idx >= 0 && r.Chance(1, 3):
+		g.tcp = append(g.tcp[:idx:idx], g.tcp[idx+1:]...)
+	case idx >= 0:
+		g.tcp[idx] = g.randomTCPEntry(port)
+	default:
+		g.tcp = append(g.tcp, g.randomTCPEntry(port))
+		sort.Slice(g.tcp, func(i, j int) bool { return g.tcp[i].Port < g.tcp[j].Port })
+	}
+	g.tcpSet = true
+	return TCPOpText(g.tcp)
+}
+
+// TCPSecretOp changes a secret that an entry of the tcp-services ConfigMap names (crt or CA): it appears (usable or
+// not), disappears, is renewed, or is replaced by a secret without the keys the entry needs
+func (g *Gen) TCPSecretOp() string {
+	r := g.R
+	type ref struct{ key, kind string }
+	var refs []ref
+	for _, e := range g.tcp {
+		if e.Crt != "" {
+			refs = append(refs, ref{e.Crt, "tls"})
+		}
+		if e.CA != "" {
+			refs = append(refs, ref{e.CA, "ca"})
+		}
+	}
+	if len(refs) == 0 {
+		return g.TCPOp()
+	}
+	x := gen.Pick(r, refs)
+	if g.sec[x.key] > 0 && r.Chance(2, 5) {
+		delete(g.sec, x.key)
+		delete(g.secKind, x.key)
+		return "sec-" + x.key
+	}
+	act := "+"
+	if g.sec[x.key] > 0 {
+		act = "~"
+	}
+	g.sec[x.key]++
+	kind := x.kind
+	if r.Chance(1, 4) {
+		kind = gen.Pick(r, []string{"bad", "tls", "ca"})
+	}
+	g.secKind[x.key] = kind
+	dns := "-"
+	if kind == "tls" {
+		dns = "a.local+b.local"
+	}
+	return fmt.Sprintf("sec%s%s!%s!%d!%s", act, x.key, kind, g.sec[x.key]+ChainStep*g.secChain[x.key], dns)
+}
